@@ -12,20 +12,19 @@
 #include "dnsrec_abs.h"
 #include <errno.h>
 
-#define MAXTOK 6
-extern int vp_lock_depth;
 
-static ares_channel_t M_ch;
-static ares_timeval_t M_now;
-static int            M_cb_count[MAXTOK];
-static ares_status_t  M_cb_status[MAXTOK];
-static int            M_ntok;
-static int            M_depth;           /* callback nesting */
-static int            M_reenter_cancel;  /* allow callbacks to call ares_cancel() (depth 1) */
-static int            M_reentered;
-static size_t         M_writes;          /* successful frame hand-overs to a connection buffer */
-static ares_conn_t   *M_last_write_conn;
-static int            M_cookie_validate_rv; /* 0 = accept */
+#include "machine_ext.h"
+ares_channel_t M_ch;
+ares_timeval_t M_now;
+int            M_cb_count[MAXTOK];
+ares_status_t  M_cb_status[MAXTOK];
+int            M_ntok;
+int            M_depth;           /* callback nesting */
+int            M_reenter_cancel;  /* allow callbacks to call ares_cancel() (depth 1) */
+int            M_reentered;
+size_t         M_writes;          /* successful frame hand-overs to a connection buffer */
+ares_conn_t   *M_last_write_conn;
+int            M_cookie_validate_rv; /* 0 = accept */
 
 /* ---- clock / rng ---- */
 void ares_tvnow(ares_timeval_t *now) { *now = M_now; }
@@ -61,8 +60,11 @@ ares_status_t ares_cookie_validate(ares_query_t *q, const ares_dns_record_t *r, 
   (void)q; (void)r; (void)c; (void)n; (void)rq;
   return M_cookie_validate_rv ? ARES_EBADRESP : ARES_SUCCESS;
 }
+#ifndef M_NO_QCACHE_INSERT
 ares_status_t ares_qcache_insert(ares_channel_t *ch, const ares_timeval_t *now, const ares_query_t *q, ares_dns_record_t *r)
 { (void)ch; (void)now; (void)q; (void)r; return ARES_ENOTFOUND; }
+#endif
+#ifndef M_NO_QCACHE_FETCH
 ares_status_t ares_qcache_fetch(ares_channel_t *ch, const ares_timeval_t *now, const ares_dns_record_t *req,
                                 const ares_dns_record_t **resp)
 { (void)ch; (void)now; (void)req; (void)resp; return ARES_ENOTFOUND; }
@@ -71,6 +73,7 @@ ares_status_t ares_dns_record_duplicate_ex(ares_dns_record_t **dest, const ares_
   *dest = ares_dns_record_duplicate(src);
   return *dest ? ARES_SUCCESS : ARES_ENOMEM;
 }
+#endif
 ares_status_t ares_get_server_addr(const ares_server_t *server, ares_buf_t *buf) { (void)server; (void)buf; return ARES_SUCCESS; }
 
 /* ---- user callback with optional re-entry ---- */
@@ -157,6 +160,21 @@ static void M_check_links(void)
       VP_ASSERT(ares_conn_from_fd(&M_ch, c->fd) == c, "every registered connection is found by its descriptor");
     }
   }
+  VP_ASSERT(vp_lock_depth == 0, "channel lock balanced");
+}
+/* like M_check_links, tolerating requests the contract stubs left "to be sent"/"in flight" abstractly */
+static void M_check_links_relaxed(void)
+{
+  ares_llist_node_t *n;
+  for (n = ares_llist_node_first(M_ch.all_queries); n != NULL; n = ares_llist_node_next(n)) {
+    ares_query_t *q = ares_llist_node_val(n);
+    VP_ASSERT(q->node_all_queries == n, "live request knows its list node");
+    VP_ASSERT(ares_htable_szvp_get_direct(M_ch.queries_by_qid, q->qid) == q, "live request indexed under its id");
+    VP_ASSERT((q->conn != NULL) == (q->node_queries_to_conn != NULL) && (q->conn != NULL) == (q->node_queries_by_timeout != NULL),
+              "a request is on a connection iff it is in that connection's list and in the timeout index");
+    if (q->conn != NULL) VP_ASSERT(vsock[q->conn->fd].state == 1, "a request never sits on a closed connection");
+  }
+  VP_ASSERT(ares_htable_szvp_num_keys(M_ch.queries_by_qid) == ares_llist_len(M_ch.all_queries), "qid index = live requests");
   VP_ASSERT(vp_lock_depth == 0, "channel lock balanced");
 }
 static void M_init(void)
